@@ -216,7 +216,9 @@ P["C09"] = dict(
     claimed=True,
     technique="static analysis: key-availability dataflow between constructors and parameter-table readers, "
               "validation-before-unwrap, ranking functions for all loops, recursion guard, ellipsoid table grammar",
-    decides=["R-KEY-AVAIL: every panicking keyed read of the parameter tables (unwrap of an accessor, map[key], "
+    decides=["R-REMOVE-PAIR: tidy_proj removes the a= and rf= elements in an order decided by comparing the two saved "
+             "indices (an unordered pair of Vec::remove calls panics when rf is written before a trailing a)",
+             "R-KEY-AVAIL: every panicking keyed read of the parameter tables (unwrap of an accessor, map[key], "
              "series_as_*) is backed by the gamut, the implicit keys, an insert on every Ok path, or a conditional "
              "guarantee tied to the same dispatch literal / flag",
              "R-ELLPS-VALIDATED: Ellipsoid::named(..).unwrap() is preceded by validation of every ellps* text in "
@@ -412,6 +414,31 @@ P["C16"] = dict(
     level="Decides only the declaration/use agreement clause of 'parameters are typed as declared'; the tokenizer's "
           "layout-insignificance clauses are not decidable by static analysis and are not claimed.",
     design_ref="DESIGN.md section 3, C16",
+)
+P["C17"] = dict(
+    claimed=True,
+    technique="static analysis: who-calls and dataflow rules on Plain::op and parse_proj (value graph, control dependence)",
+    decides=[
+        "R-PROJ-FILTER: Plain::op instantiates exactly what parse_proj returns for the definition it was given",
+        "R-PROJ-INVERSION: the reversal of the step order, the inversion of each step and the exchange of omit_fwd / "
+        "omit_inv are all controlled by one and the same pipeline-level inversion flag (an ordinary pipeline keeps its "
+        "omissions)",
+        "R-PROJ-GLOBALS: pipeline globals are inserted right after the operator name, before the step's own arguments "
+        "(a step-local value of the same key comes later and wins)",
+        "R-PROJ-REFUSALS: init= clauses and a proj=pipeline element in a later step end in an Unsupported error",
+        "R-PROJ-FILTER (unconditional): every alternative value of the definition handed to Op::new is the translator's "
+        "result - no fast path that skips parse_proj",
+        "R-PROJ-GLOBALS (tidy-first): tidy_proj rewrites the step's own a / rf / k before the globals are inserted",
+        "R-REMOVE-PAIR: tidy_proj's removal of the a= and rf= elements is ordered by a comparison of the two saved "
+        "indices (also a no-panic obligation of C09)",
+    ],
+    not_decided=["the string semantics of the translation on all PROJ texts: pass-through of non-PROJ text, idempotence, "
+                 "the a/rf/k rewriting of tidy_proj, comment and whitespace handling",
+                 "equality of behaviour with the hand-written Geodesy counterpart (follows only where the clauses above "
+                 "and C03/C04/C16 cover it)"],
+    level="Decides four structural clauses of the translator (what is filtered, how a pipeline-level inv is applied, where "
+          "globals go, what is refused); the string rewriting itself is not decided.",
+    design_ref="DESIGN.md section 12.6",
 )
 P["C18"] = dict(
     claimed=True,
